@@ -439,6 +439,12 @@ impl Board {
             return Err(BoardValidationError::InvalidCastleRights);
         }
 
+        if cr.contains(Side::King, Color::White)
+            && self.raw.get(Pos::H1) != Some((Color::White, Piece::Rook))
+        {
+            return Err(BoardValidationError::InvalidCastleRights);
+        }
+
         if cr.contains(Side::King, Color::Black)
             && self.raw.get(Pos::H8) != Some((Color::Black, Piece::Rook))
         {
